@@ -91,16 +91,24 @@ def replay_config(chk, records, fields):
         chk.case(key=json.dumps(rec["prov"], sort_keys=True), nontrivial=bool(rec["prov"]))
         with tempfile.TemporaryDirectory(prefix="nev-c10-") as d:
             d = Path(d)
-            (d / "a.svg").write_text("<svg/>")
-            (d / "b.svg").write_text("<svg/>")
+            # legal file and directory names of every character class the property lists (the names the user gives and
+            # the absolute paths the driver writes for the worker must both be taken literally); '*' is the documented
+            # glob character and is left out
+            sub, (sa, sb_) = [("", ("a.svg", "b.svg")), ("", ("emoji_u1f600[1].svg", "b c.svg")), ("dir [x]", ("a.svg", "b.svg")),
+                              ("", ("what?.svg", "it's.svg")), ("", ("co,mma.svg", 'q"uote.svg')), ("sp ace, ünï", ("ünï.svg", "{brace}.svg"))][n % 6]
+            if sub:
+                (d / sub).mkdir()
+            sa, sb_ = (f"{sub}/{sa}" if sub else sa), (f"{sub}/{sb_}" if sub else sb_)
+            (d / sa).write_text("<svg/>")
+            (d / sb_).write_text("<svg/>")
             multi = n % 3 == 0
             cfg = {k: to_toml_value(v) for k, v in file_vals.items()}
             cfg["axis"] = {"wght": {"name": "Weight", "default": 400}}
-            cfg["master"] = {"regular": {"style_name": "Regular", "srcs": ["a.svg", "b.svg"], "position": {"wght": 400}}}
+            cfg["master"] = {"regular": {"style_name": "Regular", "srcs": [sa, sb_], "position": {"wght": 400}}}
             if multi:
                 cfg["axis"]["wdth"] = {"name": "Width", "default": 100.5}
                 cfg["master"]["regular"]["position"]["wdth"] = 100.5
-                cfg["master"]["bold"] = {"style_name": "Bold ünï", "srcs": ["a.svg", "b.svg"], "position": {"wght": 700, "wdth": 100.5}}
+                cfg["master"]["bold"] = {"style_name": "Bold ünï", "srcs": [sa, sb_], "position": {"wght": 700, "wdth": 100.5}}
                 if cfg.get("color_format", "glyf_colr_1") in ("picosvg", "cbdt", "untouchedsvgz"):
                     cfg.pop("color_format", None)
                     file_vals.pop("color_format", None)
@@ -124,6 +132,10 @@ def replay_config(chk, records, fields):
             finally:
                 for k, v in saved.items():
                     setattr(FLAGS, k, v)
+            got_srcs = sorted(str(x) for x in driver.masters[0].sources)
+            want_srcs = sorted(str((d / x).resolve()) for x in (sa, sb_))
+            if got_srcs != want_srcs:
+                chk.violation(f"sources {[sa, sb_]} named in the configuration resolve to {[Path(x).name for x in got_srcs]}", replay)
             # precedence: flag > file > default, field for field
             for f in fields:
                 exp = want.get(f, getattr(defaults, f))
